@@ -23,12 +23,14 @@ META = {
 }
 
 THEOREMS = [("export_reproducible", "theorem"), ("type_locs_reproducible", "theorem"), ("export_complete_once", "theorem"),
-            ("modules_reproducible_iff_sorted", "theorem"), ("modules_complete_iff_not_skipped", "theorem"),
+            ("modules_reproducible_iff_sorted", "theorem"), ("modules_reproducible_iff_key_has_path", "theorem"),
+            ("modules_complete_iff_not_skipped", "theorem"),
             ("globals_once_iff_dedup", "theorem"), ("split_class_content_reproducible", "theorem"),
             ("split_class_reproducible_iff_sorted", "theorem"), ("export_example", "example")]
 
 EXPECTED_FLAGS = {"modules_sorted": True, "types_sorted": True, "globals_sorted": True, "globals_dedup": True,
                   "modules_skip_no_export": False, "type_locs_sorted": True, "update_files_sorted": True,
+                  "modules_key_has_path": True, "types_key_has_locs": True, "globals_key_has_decl_id": True,
                   "main_filter_export_modules": True, "main_filter_export_types": True, "main_filter_export_globals": True}
 
 TRUSTED = [
@@ -78,10 +80,11 @@ def case_to_coq(index, obs):
 
 
 def wf_index(index):
-    """the hypotheses of export_reproducible: sort keys identify the entries"""
-    mk = [(m["name"], m["path"]) for m in index["modules"]]
-    tk = [(t["name"], tuple(sorted((l["path"] or "", l["start"]) for l in t["locs"]))) for t in index["types"] if any(l["main"] for l in t["locs"])]
-    gk = [(g["name"], g["path"], g["pos"]) for g in index["globals"] if g["main"]]
+    """the structural hypotheses of export_reproducible: distinct files have distinct paths, distinct type declarations
+    distinct declaration sites, distinct global declarations differ in file or position"""
+    mk = [m["path"] for m in index["modules"]]
+    tk = [tuple(sorted((l["path"] or "", l["start"]) for l in t["locs"])) for t in index["types"] if any(l["main"] for l in t["locs"])]
+    gk = [(g["path"], g["pos"]) for g in index["globals"] if g["main"]]
     return len(set(mk)) == len(mk) and len(set(tk)) == len(tk) and len(set(gk)) == len(gk)
 
 
@@ -200,9 +203,9 @@ def main(argv):
         search(ck, bins["c35"], doc, ck.scale(12, 120), ck.scale(3, 5), ck.scale(2, 3))
     ck.finish(
         trusted_base=TRUSTED,
-        rule="generated workspaces on disk (2-6 main files in nested folders, optional namespaces, classes/enums/aliases/globals of 5 forms, "
-             "classes declared in two files, globals assigned in two files and re-assigned in one file, modules returning nothing / a table / a class / "
-             "a number, 0-2 library files declaring their own and main-workspace names) + 2 hand-written witnesses (corpus/C35); each exported by the real binary in "
+        rule="generated workspaces on disk (2-6 main files in nested folders, 40% chance each of a pair x.lua + x/init.lua with EQUAL module names, optional namespaces, classes/enums/aliases/globals of 5 forms, "
+             "classes declared in two files (both parts with a member of the same name), aliases declared in two files, globals assigned in two files and re-assigned in one file, modules returning nothing / a table / a class / "
+             "a number, 0-2 library files declaring their own and main-workspace names) + 4 hand-written witnesses (corpus/C35, incl. six pairs of modules with equal names); each exported by the real binary in "
              "3-5 fresh processes as json and 2-3 as markdown; non-trivial = at least one type, one global and two modules; distinct by file contents",
         assumptions=["rendering of a single entry is a function of the index content; the index content is a function of the files and of the (sorted) analysis order (C11's subject)",
                      "correspondence and search are sampled (they validate the model and look for replays; the theorems carry the all-orders claim)"])
